@@ -21,6 +21,7 @@ import (
 	"os/exec"
 	"path/filepath"
 	"runtime"
+	"slices"
 	"strings"
 	"sync"
 	"time"
@@ -406,12 +407,26 @@ func c19Worker(args []string) int {
 
 // runCttyWorker runs a worker subcommand of this binary with a fresh pty as
 // its controlling terminal and returns its standard output.
-func runCttyWorker(args ...string) ([]byte, error) {
+func runCttyWorker(args ...string) ([]byte, error) { return runCttyWorkerEnv(nil, args...) }
+
+// runCttyWorkerEnv is runCttyWorker in a changed environment: "K=V" sets,
+// a bare "K" unsets.
+func runCttyWorkerEnv(env []string, args ...string) ([]byte, error) {
 	self, err := os.Executable()
 	if nil != err {
 		return nil, err
 	}
 	cmd := exec.Command(self, append([]string{"worker"}, args...)...)
+	if nil != env {
+		cmd.Env = os.Environ()
+		for _, e := range env {
+			k, _, set := strings.Cut(e, "=")
+			cmd.Env = slices.DeleteFunc(cmd.Env, func(x string) bool { return strings.HasPrefix(x, k+"=") })
+			if set {
+				cmd.Env = append(cmd.Env, e)
+			}
+		}
+	}
 	var out strings.Builder
 	cmd.Stdout = &out
 	cmd.Stderr = os.Stderr
